@@ -1,0 +1,21 @@
+//go:build verif
+
+package coreutil
+
+import (
+	"time"
+
+	"github.com/yandex/pandora/core"
+)
+
+// VerifNewWaiter returns a Waiter whose cached clock reading and overdue duration are preset.
+// Verification harness only (build tag verif): lets the boundary cases of Wait / IsSlowDown be
+// driven exactly instead of through wall-clock timing.
+func VerifNewWaiter(sched core.Schedule, lastNow time.Time, overdue time.Duration) *Waiter {
+	return &Waiter{sched: sched, lastNow: lastNow, overdueDuration: overdue}
+}
+
+// VerifState returns the cached clock reading and the overdue duration (read-only).
+func (w *Waiter) VerifState() (lastNow time.Time, overdue time.Duration) {
+	return w.lastNow, w.overdueDuration
+}
